@@ -126,6 +126,31 @@ def prereg_family(tag):
     return scs
 
 
+def multigroup_family(tag):
+    """chunks that carry several data point groups: full ids and aliases mixed in ONE chunk, the same data id in two groups of a chunk,
+    a group without points, an alias used in the same chunk that... never: an alias is only used after the client announced it."""
+    scs = []
+    rd = {"a": "read", "g": "R1", "obj": "D1", "ctxMs": 1500, "wait": True}
+    G = lambda f, idn, k, n=1: {"f": f, "id": idn, "al": -1 if f == "al" else 0, "pts": [[k * 10 + j, 4 + j] for j in range(n)]}
+    ch = lambda k, up, upf, groups: {"a": "sendChunk", "obj": "D1", "up": up, "upF": upf, "upAl": -1 if upf == "alias" else 0, "seq": k, "groups": groups}
+    variants = {
+        "mixed": [ch(1, "X", "info", [G("id", "A", 1), G("id", "B", 2, 2)]), ch(2, "X", "alias", [G("al", "A", 3), G("id", "C", 4), G("al", "B", 5)]),
+                  ch(3, "Y", "info", [G("al", "C", 6), G("al", "A", 7, 3)])],
+        "sameIdTwice": [ch(1, "X", "info", [G("id", "A", 1), G("id", "A", 2)]), ch(2, "X", "alias", [G("al", "A", 3), G("id", "A", 4)]),
+                        ch(3, "X", "info", [G("id", "B", 5), G("al", "A", 6), G("id", "B", 7)])],
+        "emptyGroup": [ch(1, "X", "info", [G("id", "A", 1, 0), G("id", "B", 2)]), ch(2, "Y", "info", [G("al", "B", 3), G("al", "A", 4, 0)])],
+    }
+    for name, chunks in variants.items():
+        steps = [{"a": "connect", "must": True},
+                 {"a": "openDown", "obj": "D1", "qos": "reliable", "srcs": ["n1"], "ids": [], "ackFlushMs": 20, "must": True}]
+        for c in chunks:
+            steps += [c, rd, {"a": "sleep", "ms": 45}]
+        steps += [{"a": "closeDown", "g": "C", "obj": "D1", "ctxMs": 3000, "wait": True}, {"a": "quiesce"},
+                  {"a": "closeConn", "g": "main2", "wait": True, "ctxMs": 2000}, {"a": "quiesce", "ms": 50}]
+        scs.append({"id": "%s/multigroup/%s" % (tag, name), "kind": "iscp", "conn": {}, "steps": steps})
+    return scs
+
+
 def dying_link_family(tag):
     """an acknowledgement is written into a link that is already broken for writing but not yet seen as closed: the transport reports a
     plain I/O error (or its "closed" sentinel). Whatever the error, the content of that acknowledgement must reach the broker later
@@ -199,7 +224,7 @@ def run(pid="C04", mon="MonC04"):
     scs = core(pid) + family(ctx, pid, 40 if quick else 400, quick, bogus=False, maxc=6, name="sim")
     scs += family(ctx, pid, 25 if quick else 300, quick, bogus=True, maxc=4, name="bogus")
     scs += forms_family(pid, 4, "up") + forms_family(pid, 4, "id") if quick else forms_family(pid, 5, "up") + forms_family(pid, 5, "id")
-    scs += prereg_family(pid)
+    scs += prereg_family(pid) + multigroup_family(pid)
     if pid == "C03":
         scs += meta_family(pid)
         # unreliable downstream over a transport with a separate unreliable path (chunks arrive on the datagram-like pipe)
